@@ -111,12 +111,6 @@ func (cb *CircuitBreaker) Execute(fn func() error) error {
 	}
 
 	vhook.Yield("cb.exec.count")
-	// Increment request count for half-open state
-	cb.mutex.Lock()
-	if cb.state == StateHalfOpen {
-		cb.requestCount++
-	}
-	cb.mutex.Unlock()
 
 	defer func() {
 		if r := recover(); r != nil {
@@ -178,11 +172,14 @@ func (cb *CircuitBreaker) beforeRequest() error {
 				cb.requestCount = 0
 				cb.successCount = 0
 			}
+			// Admit (and count) under the same lock: another request may have
+			// moved the breaker to half-open, or back, in the meantime.
+			err := cb.admitLocked()
 			cb.mutex.Unlock()
 			if notify != nil {
 				notify()
 			}
-			return nil
+			return err
 		}
 		return ErrCircuitBreakerOpen
 	}
@@ -196,11 +193,33 @@ func (cb *CircuitBreaker) beforeRequest() error {
 		if atLimit {
 			return ErrTooManyRequests
 		}
-		return nil
+		// Check the limit again and count the trial in one critical section so
+		// that concurrent requests cannot exceed maxRequests.
+		cb.mutex.Lock()
+		err := cb.admitLocked()
+		cb.mutex.Unlock()
+		return err
 	}
 
 	cb.mutex.RUnlock()
 	return ErrCircuitBreakerOpen
+}
+
+// admitLocked decides whether a request may proceed in the current state and,
+// in half-open state, counts it as a trial (must be called with the mutex held).
+func (cb *CircuitBreaker) admitLocked() error {
+	switch cb.state {
+	case StateClosed:
+		return nil
+	case StateHalfOpen:
+		if cb.requestCount >= cb.maxRequests {
+			return ErrTooManyRequests
+		}
+		cb.requestCount++
+		return nil
+	default:
+		return ErrCircuitBreakerOpen
+	}
 }
 
 // afterRequest updates the circuit breaker state after a request
